@@ -5,6 +5,7 @@ import (
 	"go/types"
 	"math"
 	"math/big"
+	"strconv"
 	"strings"
 	"unicode"
 
@@ -279,6 +280,7 @@ func ruleDomainNodes(p *Prog, r *Report) {
 				Accept: func(v []Val) bool { return v[0].K == KInt && v[0].I.IsInt64() && valid[v[0].I.Int64()] }})
 		}
 	}
+	binaryStringLiterals(p, r, rule)
 	// ASCII: every rune of a value node is 7-bit
 	if fn := p.MustFunc(r, "ast", "(*ASCIINode).checkRep"); fn != nil {
 		if hasField(fn, 0, "value") && hasField(fn, 0, "isValue") && len(stringRangeSites(fn)) == 0 {
@@ -325,5 +327,54 @@ func ruleDomainNodes(p *Prog, r *Report) {
 		} else {
 			r.unk(rule, "anchor:ASCIINode.value", "", "fields value/isValue not found")
 		}
+	}
+}
+
+// binaryStringLiterals: NewBinaryNode takes a byte also as text. The factory
+// is evaluated on one string argument for every notation, at and around the
+// bounds 0 and 255, with leading zeros and with more digits than any integer
+// type holds: it must accept exactly the Go integer literals whose value lies
+// in [0, 255] (decided here with the checker's own strconv.ParseInt, base 0).
+func binaryStringLiterals(p *Prog, r *Report, rule string) {
+	fn := p.Func("ast", "NewBinaryNode")
+	if fn == nil {
+		return
+	}
+	vi := variadicIndex(fn)
+	if vi < 0 {
+		return
+	}
+	key := rule + ":ast.NewBinaryNode:string-literal"
+	long := "0b1" + strings.Repeat("0", 64)
+	// (a string that does not start with "0b" is a variable name for this factory)
+	texts := []string{"0b0", "0b1", "0b01", "0b11111111", "0b011111111", "0b100000000", "0b111111111", long, "0b" + strings.Repeat("0", 70) + "1",
+		"0b" + strings.Repeat("0", 70) + "100000000", "0b" + strings.Repeat("1", 63), "0b" + strings.Repeat("1", 64), "0b1" + strings.Repeat("0", 64) + "101010",
+		"0b1" + strings.Repeat("0", 128), "0b", "0b102", "0b2", "0b1_0", "0b_1", "0b1__0", "0b1 ", "0b 1", "0b-1", "0b1.0", "0b1e1", "0bff"}
+	var bad, undec []string
+	for _, text := range texts {
+		in := NewInterp(p)
+		args := defaultArgs(fn)
+		args[vi] = Val{K: KSlice, S: "vals", Len: 1}
+		sv := strVal(text)
+		in.PathBind["vals[0]"] = Val{K: KIface, T: types.Typ[types.String], Inner: &sv}
+		out := in.Run(fn, args, nil)
+		v, err := strconv.ParseInt(text, 0, 64)
+		want := err == nil && v >= 0 && v <= 255
+		switch {
+		case len(in.Stuck) > 0 || (out.CanReturn && out.CanPanic):
+			undec = append(undec, fmt.Sprintf("%q: not determined", text))
+		case want && !out.CanReturn:
+			bad = append(bad, fmt.Sprintf("the text %q (value %d) is refused but denotes a byte", text, v))
+		case !want && out.CanReturn:
+			bad = append(bad, fmt.Sprintf("the text %q is accepted but does not denote a value in [0, 255]", text))
+		}
+	}
+	switch {
+	case len(bad) > 0:
+		r.bad(rule, key, p.Pos(fn.Pos()), strings.Join(firstN(bad, 3), "; "))
+	case len(undec) > 0:
+		r.unk(rule, key, p.Pos(fn.Pos()), strings.Join(firstN(undec, 3), "; "))
+	default:
+		r.ok(rule, key, p.Pos(fn.Pos()), fmt.Sprintf("evaluated on %d texts in 0b notation (255|256; leading zeros; 63, 64, 65 and 129 binary digits; underscores; malformed digits): accepted exactly when the text is a binary integer literal with a value in [0, 255]", len(texts)))
 	}
 }
